@@ -41,6 +41,7 @@ RULE = ("cases = (chain of 1..4 stage rows with parameters, k, source kind, sour
         "{bounded, finite} x {iterator, re-iterable} is enumerated, random rows / chains / tee-thub-copy fan-outs are drawn by Hypothesis; "
         "oracle = need(k) of each row (closed form written from the property text: k, n+k, max(0,k-left), "
         "(j-1)*hop+size, (ceil(k/hop)-1)*hop+size, index of the k-th passing item, resampler order+1 neighbourhood, "
+        "min(k, n) against a finite second operand of n items where never more than its n outputs are asked for, "
         "furthest consumer of a tee) composed along the chain and compared with the pull counter of the source "
         "after construction, after iter() and after every single output; non-trivial = k >= 2 and the chain is not "
         "a pure pass-through (fan-out: >= 2 consumers and >= 2 items); distinct = distinct case hash")
@@ -55,8 +56,15 @@ ASSUMPTIONS = [
   "pull counts are observed on the iterator handed to the stage (Src.__next__ calls); the finite source holds "
   "exactly need(k) items, so touching its end (pulls > reads) is an over-read as well",
   "stdlib end-of-iteration behaviour (zip/map reading the left operand before noticing that the right one ended, "
-  "islice consuming up to stop) is not asserted: operands other than the source outlast the demand; the end of a "
-  "stage is probed only for Stream.limit and takewhile",
+  "islice consuming up to stop) is not asserted: operands other than the source outlast the demand, or (family "
+  "op-finite: a finite Stream / list / generator / ones(n), zeros(n), line(n), fadeout(n), adsr envelope on either side "
+  "of every binary operator) end exactly with it - then at most the n outputs the stage has are asked for, never "
+  "output n+1; the end of a stage is probed only for Stream.limit and takewhile",
+  "finding out that a two-operand stage is OVER is asking for an output that does not exist, and the statement bounds "
+  "the reads that define 'the first k outputs': whichever operand map() asks first loses one item when the other one "
+  "is the shorter (unchanged tree, finite length n, read to exhaustion: 'source op finite' reads n+1 source items, "
+  "'finite op source' reads n); no evaluation order avoids this on both sides without pushing an item back, so the "
+  "number of reads at the end of a binary operator is not asserted in either operand order",
   "resample order 0 and chunks.array are included only if a probe at import shows that they run at all (they do "
   "not on a tree without the repairs of DESIGN 4 #11 / #10, which belong to C07/C19 and C18); resample steps are "
   "exact (Fraction or dyadic float) so that the interpolation position has no rounding",
@@ -333,6 +341,39 @@ def _operand(kind, op):
   raise AssertionError(kind)
 
 
+_FIN_N = [1, 2, 5, 12]   # lengths of the finite operand: the k grid (1, 2, 5, 12) lies below, at and beyond them
+
+
+def _finite(kind, op, n):
+  """A fresh operand of exactly n items: the stage has n outputs and no more."""
+  if op == "matmul":
+    vals = [Mat(2), Mat(3)]
+  elif op == "pow":
+    vals = [2, 1]
+  else:
+    vals = [2, 3]
+  items = (vals * (n // 2 + 1))[:n]
+  if kind == "st":
+    return Stream(items)
+  if kind == "li":
+    return items
+  if kind == "tu":
+    return tuple(items)
+  if kind == "ge":
+    return (v for v in items)
+  if kind == "sg":
+    return Stream(v for v in items)
+  raise AssertionError(kind)
+
+
+def _NMIN(k, p, f):
+  return min(k, p["n"])
+
+
+def _NMAX(p, f):
+  return p["n"]
+
+
 def _mk_ops():
   for op in _BIN + _CMP:
     sides = ["", "r"] if op in _BIN else [""]
@@ -365,6 +406,19 @@ def _mk_ops():
       R("op:%s%s:other=src" % (side, op),
         (lambda s, p, dn=dn, op=op: getattr(_operand("st", op), dn)(iter(s))),
         fam="op-other", src=src, inner=inner, tout=tout)
+      # the operand that is not the source is FINITE (n items): the stage has n outputs, and asking for its first
+      # k <= n outputs (up to and including all of them - never for output n+1) reads exactly k source items,
+      # whichever side the source is on.  maxout caps the demand at n; the end itself is not probed (end_reads None)
+      src, inner = req(side == "r")
+      R("op:%s%s:finite-other" % (side, op),
+        (lambda s, p, dn=dn, op=op: getattr(S(s), dn)(_finite(p["fk"], op, p["n"]))),
+        need=_NMIN, maxout=_NMAX, fam="op-finite", src=src, inner=inner, tout=tout,
+        dom={"n": _FIN_N, "fk": ["st", "li", "ge", "tu"]}, chain_dom={"n": [BIG]})
+      src, inner = req(side == "")
+      R("op:%s%s:finite-self:other=src" % (side, op),
+        (lambda s, p, dn=dn, op=op: getattr(_finite(p["fk"], op, p["n"]), dn)(S(s) if p["w"] else iter(s))),
+        need=_NMIN, maxout=_NMAX, fam="op-finite", src=src, inner=inner, tout=tout,
+        dom={"n": _FIN_N, "fk": ["st", "sg"], "w": [True, False]}, chain_dom={"n": [BIG]})
   for op, src in [("neg", None), ("pos", None), ("invert", "mod5"), ("abs", None)]:
     R("op:%s" % op, (lambda s, p, dn="__%s__" % op: getattr(S(s), dn)()), fam="op", src=src)
   # operator syntax with a non-Stream on the left (Python's reflected dispatch)
@@ -775,6 +829,27 @@ R("attack:sustain-stream", lambda s, p: al.attack(p["a"], p["d"], S(s) if p["w"]
 R("line*Stream", lambda s, p: al.line(BIG) * S(s), fam="synth")
 R("Stream*ones", lambda s, p: S(s) * al.ones(), fam="synth")
 R("fadein*Stream", lambda s, p: al.fadein(BIG) * S(s) + al.zeros(), fam="synth")
+# "You may multiply / sum your endless stream by this to enforce an end to it" (ones, zeros; the finite envelopes
+# are used alike): the n outputs of the product need n items of the endless stream, in either operand order
+_ENV = OrderedDict([
+  ("ones", lambda n: al.ones(n)), ("zeros", lambda n: al.zeros(n)), ("line", lambda n: al.line(n, 1, 2)),
+  ("fadeout", lambda n: al.fadeout(n)), ("ones:float-dur", lambda n: al.ones(n + .25)),
+  ("adsr", lambda n: al.adsr(n + 2, 1, 1, .5, 1).skip(2)),
+])
+_ENVOP = OrderedDict([("mul", operator.mul), ("add", operator.add), ("sub", operator.sub)])
+R("idiom:Stream.op.envelope(n)", lambda s, p: _ENVOP[p["op"]](S(s), _ENV[p["env"]](p["n"])),
+  need=_NMIN, maxout=_NMAX, fam="op-finite", dom={"n": _FIN_N, "env": list(_ENV), "op": list(_ENVOP)},
+  chain_dom={"n": [BIG]})
+R("idiom:envelope(n).op.Stream", lambda s, p: _ENVOP[p["op"]](_ENV[p["env"]](p["n"]), S(s)),
+  need=_NMIN, maxout=_NMAX, fam="op-finite", dom={"n": _FIN_N, "env": list(_ENV), "op": list(_ENVOP)},
+  chain_dom={"n": [BIG]})
+R("idiom:envelope(n).op.src", lambda s, p: _ENVOP[p["op"]](_ENV[p["env"]](p["n"]), iter(s)),
+  need=_NMIN, maxout=_NMAX, fam="op-finite", dom={"n": _FIN_N, "env": list(_ENV), "op": list(_ENVOP)},
+  chain_dom={"n": [BIG]})
+R("idiom:(envelope(n)*Stream)**2", lambda s, p: (_ENV[p["env"]](p["n"]) * S(s)) ** 2,
+  need=_NMIN, maxout=_NMAX, fam="op-finite", dom={"n": _FIN_N, "env": list(_ENV)}, chain_dom={"n": [BIG]})
+R("idiom:(Stream*envelope(n)).map", lambda s, p: (S(s) * _ENV[p["env"]](p["n"])).map(abs),
+  need=_NMIN, maxout=_NMAX, fam="op-finite", dom={"n": _FIN_N, "env": list(_ENV)}, chain_dom={"n": [BIG]})
 _POLY = OrderedDict([
   ("quad", lambda: PX ** 2 + PX + 1),
   ("sparse", lambda: PX ** 7 + PX ** 6 + 4),
@@ -1049,6 +1124,12 @@ def run_case(case):
     labels.append("fewer reads than outputs")
   if probe_end:
     labels.append("end probed")
+  if rows[0].fam == "op-finite" and len(rows) == 1:
+    n_fin = stages[0][1]["n"]
+    labels.append("finite operand: " + ("fewer outputs asked than it has" if k < n_fin else
+                                        "all its outputs asked, end not asked for"))
+    if k == n_fin:
+      labels.append("finite operand: k == its length")
   if not exact:
     labels.append("maximal row")
   return {"nontrivial": kk >= 2 and not ident, "labels": labels}
@@ -1284,6 +1365,10 @@ def _grid_floors():
   # half of the grid hands the source over as a re-iterable object (3.7 % of the grid: into a filter row)
   floors["feed:re-iterable"] = .15
   floors["re-iterable into fam:filter"] = .01
+  # 38 % of the grid: a binary operator / envelope idiom whose other operand is finite; 9 %: k equal to its length
+  floors["fam:op-finite"] = .1
+  floors["finite operand: all its outputs asked, end not asked for"] = .07
+  floors["finite operand: k == its length"] = .03
   return floors, tot
 
 
@@ -1302,7 +1387,8 @@ CLAUSES = [
                  "reads == need(j) after every output j <= k, never past need(k)"),
   Clause("single", strat_single, run_case, quick=4000, thorough=80000,
          floors={"mode:finite": .08, "mode:bounded": .15, "pull:take": .05, "pull:peek": .05, "look-ahead/offset": .05,
-                 "fam:op": .02, "fam:filter": .01, "fam:blocks": .01, "fam:itertools": .01, "feed:re-iterable": .1,
+                 "fam:op": .02, "fam:op-finite": .05, "finite operand: all its outputs asked, end not asked for": .03,
+                 "fam:filter": .01, "fam:blocks": .01, "fam:itertools": .01, "feed:re-iterable": .1,
                  "feed:iter": .15},
          doc="random row, parameters, k, source kind/mode, pull mode (next / take / peek+take / islice) and feed "
              "(iterator / re-iterable object)"),
